@@ -638,7 +638,7 @@ def run_c15(argv):
         [R(["H", "CO"], ["H2"], 999), R(["CO", "H"], ["H2"], 100)],
         [R(["H", "CO"], ["H2"], t) for t in ALL_TYPES] + [R(["CO", "H"], ["H2"], t) for t in reversed(ALL_TYPES)],   # every type pair
         [R(["C", "O"], ["CO"], 999), R(["C", "O"], ["CO"], 101), R(["O", "C"], ["CO"], 101), R(["H", "H"], ["H2"], 100), R(["H", "H"], ["H2"], 999)],
-        # placeholders without species (an indented comment line of a KROME file leaves one) in front of and between the repeats: the
+        # placeholders without species (an indented comment line of a KROME file left one before the fix of F30; a caller can still add one) in front of and between the repeats: the
         # reported indices are positions in the network's own reaction list
         [R([], [], 100), R(["H", "CO"], ["HCO"], 100), R(["C", "O"], ["CO"], 100), R([], [], 100), R(["CO", "H"], ["HCO"], 100),
          R(["C", "O"], ["CO"], 100)],
